@@ -1,0 +1,28 @@
+//go:build verif
+
+package client
+
+import "sync/atomic"
+
+// Scheduling points for the verification harness (/verif). Compiled only with
+// -tags verif. The harness installs a function that is called at every point
+// with the reader and the name of the point; it may park the calling goroutine
+// (all points except "replaced", which is reported while the reader's mutex is
+// held, sit where no lock is held).
+
+var verifYieldFn atomic.Pointer[func(reader any, point string)]
+
+// VerifSetYield installs (or, with nil, removes) the scheduling-point callback.
+func VerifSetYield(f func(reader any, point string)) {
+	if f == nil {
+		verifYieldFn.Store(nil)
+		return
+	}
+	verifYieldFn.Store(&f)
+}
+
+func verifYield(reader any, point string) {
+	if f := verifYieldFn.Load(); f != nil {
+		(*f)(reader, point)
+	}
+}
